@@ -153,8 +153,10 @@ class InjectInitialPopulationWrapper(PopulationInitializer):
             else:
                 return Individual(x, representation=representation)
 
-        for i, p in enumerate(self.programs[:target_size]):
+        injected = 0
+        for p in self.programs[:target_size]:
             yield ensure_ind(p)
+            injected += 1
 
-        if i < target_size - 1:
-            yield from self.backup_initializer.initialize(problem, representation, random, target_size - i)
+        if injected < target_size:
+            yield from self.backup_initializer.initialize(problem, representation, random, target_size - injected)
